@@ -83,17 +83,33 @@ pub fn run(thorough: bool, seed: u64, driver: &str, rep: &mut Report) {
     if !thorough {
         ns.retain(|n| *n <= 24 || n % 4 == 0);
     }
-    for &n in ns.iter() {
+    for (ni, &n) in ns.iter().enumerate() {
         for shape in ["ete3", "yule", "cat"] {
-            for (d, dname) in dists.iter() {
+            // the distributions are visited in a rotating order that does NOT start with the first enum variant: state
+            // carried from one generator call to the next (a memoised sampler, say) must not hide behind the natural order
+            for di in 0..3 {
+                let (d, dname) = &dists[(di + 2 + ni) % 3];
                 for brlens in [true, false] {
                     let reps = if shape == "cat" { 1 } else { seeds };
-                    for _ in 0..reps {
+                    for ri in 0..reps + 1 {
+                        // one extra call per combination for the uniform distribution with EXTREME raw draws injected into
+                        // the seeded generator (hook H4): all-ones / all-zero words drive the sampler to the two ends of
+                        // its support, where "inside [0.002, 1)" is decided (closed below, open above)
+                        let extreme = ri == reps;
+                        if extreme && !(*dname == "uniform" && brlens) {
+                            continue;
+                        }
                         let s = rng.next() % 1_000_000_007;
-                        let case = format!("gen\t{shape}\t{n}\t{}\t{dname}\t{s}", brlens as u8);
+                        let case = format!("gen\t{shape}\t{n}\t{}\t{dname}\t{s}{}", brlens as u8, if extreme { "\textreme-draws-300" } else { "" });
                         rep.case(&case, n >= 3);
                         rep.count(&format!("shape:{shape}"));
-                        let t = match gen(shape, n, brlens, *d, s) {
+                        if extreme {
+                            rep.count("extreme_draw_calls");
+                            phylotree::verif::set_extreme_draws(300);
+                        }
+                        let g = gen(shape, n, brlens, *d, s);
+                        phylotree::verif::set_extreme_draws(0);
+                        let t = match g {
                             Ok(t) => t,
                             Err(e) => {
                                 rep.oracle(if e == "panic" { "no-panic" } else { "refused" }, shape, &case, &e);
@@ -133,6 +149,9 @@ pub fn run(thorough: bool, seed: u64, driver: &str, rep: &mut Report) {
                                 (false, Some(l)) => rep.oracle("lengths", "present-without-request", &case, &format!("node {i}: {l}")),
                                 (true, None) => rep.oracle("lengths", "absent-despite-request", &case, &format!("node {i}")),
                                 (true, Some(l)) => {
+                                    if *dname == "uniform" && (l == 0.002 || l > 0.9999999) {
+                                        rep.count("uniform_draws_at_an_end_of_the_support");
+                                    }
                                     let ok = match dname {
                                         &"uniform" => (0.002..1.0).contains(&l),
                                         &"exponential" => l >= 0.0 && l.is_finite(),
